@@ -334,6 +334,11 @@ impl Report {
             println!("MACHINERY-ERROR cannot write evidence {}: {e}", evpath.display());
             return 2;
         }
+        // a per-tier copy (evidence/<id>.json is overwritten by whichever tier ran last); DESIGN §9's
+        // cost table is generated from these
+        let tdir = evdir.join("tiers");
+        let _ = std::fs::create_dir_all(&tdir);
+        let _ = std::fs::write(tdir.join(format!("{}.{}.json", self.property, self.tier.name())), serde_json::to_string_pretty(&ev).unwrap() + "\n");
         eprintln!(
             "[{}] tier={} evals={} distinct_nontrivial={} scopes={}/{} complete, unlisted_keys={} known_keys={} wall={:.1}s",
             self.property,
